@@ -74,6 +74,8 @@ Verdict == verdict # "none" =>
 
 NoCatalog == {}
 NoKVals == <<>>
+TrNames == [s \in Species |-> s]
+TrOv == <<>>
 NoConfigs(n) == {}
 TraceComp == [s \in Species |-> <<>>]
 =============================================================================
